@@ -17,8 +17,12 @@ ASSUMPTIONS = [
     'decimal string defined at component, stage or global scope; aggregate is a boolean',
     'workflows are generated acyclic (the model receives the components in a topological order, the implementation '
     'receives them grouped by stage as FlowIRConcrete stores them)',
-    'the structured theorems are over parsed references; the textual layer is tied to them by C03_textual_refines for '
-    'reference strings only (arguments are covered by the correspondence, not by a theorem)',
+    'the structured theorems are over parsed references; the textual layer is tied to them by C03_textual_refines '
+    '(reference strings of copies), C03_textual_refines_aggregate (reference strings of aggregators), '
+    'C03_textual_arguments_replica (argument tokens of copies) and C03_textual_dataflow (nodes and edges of the textual '
+    'expansion = those of the structured one); their computable hypotheses (no_overlap, agg_sep, comp_guard, args_sep, '
+    'rt_ok) are evaluated inside Coq on every case by struct_check together with the conclusions; argument strings of '
+    'aggregators and the parse/print round trip (rt_ok) are covered by the correspondence, not by a theorem',
 ]
 HEADER = 'Require Import V.Repl.Model.\nOpen Scope string_scope.'
 
@@ -268,6 +272,10 @@ def classes_of(wf, info):
         if not (a or (r is not None and r > 0)):
             continue
         decl = [(t, parse_spec(t, c['stage'])) for t in c['refs']]
+        if a:
+            reps = [p1 for (_, p1) in decl if p1[0] != 'other' and replicated((p1[0], p1[1]))]
+            if len(set(reps)) != len(reps):
+                cls.add('aggregator_declares_reference_twice')
         n = r or 0
         for (t1, p1) in decl:
             if p1[0] == 'other' or not replicated((p1[0], p1[1])):
